@@ -17,6 +17,7 @@ struct pump {
   static thread_local pump* current;
   pump() {
     id = vs::S().add("pump", true);
+    vs::S().ignore_mutex(qm.native_handle());
     worker = std::thread([this] {
       vs::self = id;
       vs::S().start(id);
